@@ -223,6 +223,9 @@ def discovery_family(tier):
     one1 = module_variants(1)
     fam = [[m] for m in one2]
     fam += [[a, b] for a in one1 for b in one1]
+    M = lambda *cs: dict(fail=False, classes=list(cs))  # noqa: E731
+    # three and four healthy classes sharing one MODE_NAME, spread over modules in different ways
+    fam += [[M(1), M(1), M(1)], [M(1, 1), M(1)], [M(1), M(1, 1)], [M(1, 1), M(1, 1)], [M(1, 3), M(1), M(3, 1)], [M(2), M(1), M(1)], [M(1), M(7), M(1), M(1)]]
     if tier == "thorough":
         fam += [[a, b] for a in one2 for b in one2 if len(a["classes"]) + len(b["classes"]) > 2]
         small = [m for m in one1 if m["fail"] or not m["classes"] or m["classes"][0] in (1, 2, 3, 7)]
@@ -274,7 +277,22 @@ def expected_mode(sel_kind, sel_val):
 _life_pkg = {}
 
 
-def life_menu(ops):
+def life_menu(ops, restricted=False):
+    if restricted:
+        started = False
+        for o in ops:
+            if o[0] == "start":
+                started = True
+            elif o[0] == "disable":
+                started = False
+        if started:
+            return [("disable",), ("periodic", 2)]
+        menu = [("start",), ("auto", "B"), ("auto", "nope"), ("chooser", "B"), ("chooser", "None")]
+        if ops and ops[-1][0] in ("auto", "chooser"):
+            menu = [o for o in menu if o[0] != ops[-1][0]]
+        if ops and ops[-1][0] == "periodic":
+            menu = [("disable",)]
+        return menu
     started = False
     for o in ops:
         if o[0] == "start":
@@ -327,7 +345,7 @@ def run_history(ch, nops, sel, res):
         t_start = None
         want = []  # expected log
         for k in range(nops):
-            menu = life_menu(ops)
+            menu = life_menu(ops, restricted=(sel == "restricted"))
             op = menu[ch.choose(len(menu), "op")]
             ops.append(op)
             if op[0] == "start":
@@ -361,7 +379,7 @@ def run_history(ch, nops, sel, res):
         res.executions += 1
         res.transitions += nops
         res.checks += 1
-        rp = dict(engine="selector", part="lifecycle", selection=None, choices=list(ch.choices), nops=nops)
+        rp = dict(engine="selector", part="lifecycle", selection=sel if sel == "restricted" else None, choices=list(ch.choices), nops=nops)
         if got != want:
             k = next((i for i, (a, b) in enumerate(zip(got, want)) if a != b), min(len(got), len(want)))
             g, w = (got[k] if k < len(got) else None), (want[k] if k < len(want) else None)
@@ -390,7 +408,7 @@ def work_lifecycle(item):
     R.install()
     env.init()
     res = core.Result()
-    sel = tuple(item["sel"])
+    sel = item["sel"] if item["sel"] == "restricted" else tuple(item["sel"])
     core.explore_dfs(lambda ch: run_history(ch, item["nops"], sel, res), roots=item["roots"])
     env.nt_reset()
     return res
@@ -479,6 +497,12 @@ def main(tier, seed):
     life_items = []
     for root in life_roots():
         life_items.append(dict(sel=[None, None], nops=nops, roots=[root]))
+    # selection pass: several whole periods with selection edits in between (restricted alphabet, deeper)
+    deep = 10 if tier == "quick" else 13
+    m0 = life_menu([], restricted=True)
+    for i, a in enumerate(m0):
+        for j, b in enumerate(life_menu([a], restricted=True)):
+            life_items.append(dict(sel="restricted", nops=deep, roots=[(i, j)]))
     hs = [h for h in R.histories(4 if tier == "quick" else 6, alphabet="dat") if "a" in h]
     sels = [("none", None), ("auto-selector", "other"), ("auto-selector", "bogus"), ("chooser", "other"), ("chooser", "None"), ("chooser", "plain")]
     run_items = [dict(histories=hs[i:i + 6], selections=sels) for i in range(0, len(hs), 6)]
@@ -490,7 +514,7 @@ def main(tier, seed):
         for d in pool.run("mc.props.c14", "work_run", run_items, seed=seed):
             res.merge(d)
     res.states = len(fam) * 2
-    res.bounds.update(packages=len(fam), class_variants=len(VARIANTS), lifecycle_ops=nops, selections=[list(s) for s in SELECTIONS], run_history_depth=4 if tier == "quick" else 6)
+    res.bounds.update(packages=len(fam), class_variants=len(VARIANTS), lifecycle_ops=nops, selection_pass_ops=deep, selections=[list(s) for s in SELECTIONS], run_history_depth=4 if tier == "quick" else 6)
     rule = (
         "(A) every generated package in the family (1-2 modules [thorough: 3], 0-2 classes per module, 9 class variants over MODE_NAME / DISABLED / DEFAULT / "
         "raising constructor, modules that raise at import) x FMS attached or not, written to disk and loaded by the real AutonomousModeSelector; set-level "
@@ -515,7 +539,7 @@ def replay(path):
     if r["part"] == "discovery":
         run_discovery(r["spec"], r["fms"], res)
     elif r["part"] == "lifecycle":
-        run_history(core.Chooser(r["choices"]), r["nops"], tuple(r["selection"]), res)
+        run_history(core.Chooser(r["choices"]), r["nops"], r["selection"] if r.get("selection") == "restricted" else None, res)
     else:
         d = work_run(dict(histories=[r["history"]], selections=[tuple(r["selection"])]))
         res.merge(d)
